@@ -1,4 +1,5 @@
 #!/bin/bash
+export VERIF_EVIDENCE_DIR=$(mktemp -d /tmp/ev.XXXX)  # evidence of runs against a changed tree must not replace the real one
 # mut.sh <patch> <prop>... : apply a patch to /repo, run the quick checks (short budget), always revert
 P=$(realpath "$1"); shift
 git -C /repo apply "$P" || { echo "patch does not apply"; exit 3; }
